@@ -279,6 +279,7 @@ func c09X4(r *Run, rep *core.Report) {
 		})
 	}
 	defaultCtorFlow(r, rep, "C09.X4")
+	c09Normalise(r, rep)
 	// NewDefault variants: fields by name
 	for _, f := range r.P.Funcs {
 		if f.Pkg != r.P.Cache || f.Parent() != nil || f.Signature.Recv() != nil || f.Signature.Params().Len() < 2 {
@@ -416,4 +417,113 @@ func optionFlow(r *Run, rep *core.Report, rule string) {
 		rep.Check(okv && stores == 1, rule, fn(par)+" sets its own field", r.P.Pos(par.Pos()), "option writes config."+want+" from its own argument", "option function does not write exactly its own config field ("+want+") from its own argument: "+why)
 	}
 	rep.MinCount(rule, "option functions", n, 8)
+}
+
+// c09Normalise: the configuration normaliser the constructors call keeps a default expiration of 1ns or more as it
+// is and turns everything below into a value that means 'never expires' (<= 0) - evaluated on one representative per
+// region of the constants it compares with. (A default of exactly 1ns that is dropped, or a non-positive one that
+// comes out positive, changes when entries stored with DefaultExpiration expire.)
+func c09Normalise(r *Run, rep *core.Report) {
+	n := 0
+	seen := map[*ssa.Function]bool{}
+	for twin := 0; twin < 2; twin++ {
+		ctor := r.M.CacheCtor[twin]
+		if ctor == nil {
+			continue
+		}
+		var norm *ssa.Function
+		core.Instrs(ctor, func(in ssa.Instruction) {
+			st, ok := in.(*ssa.Store)
+			if !ok {
+				return
+			}
+			if _, isAlloc := st.Addr.(*ssa.Alloc); !isAlloc {
+				return
+			}
+			if c, isCall := st.Val.(*ssa.Call); isCall {
+				if cal := core.Callee(c); cal != nil && cal.Pkg == r.P.Cache && cal.Blocks != nil && strings.HasPrefix(typeName(st.Val.Type()), "Config") {
+					norm = cal
+					if o := cal.Origin(); o != nil {
+						norm = o
+					}
+				}
+			}
+		})
+		if norm == nil || seen[norm] {
+			continue
+		}
+		seen[norm] = true
+		rep.Fn(fn(norm))
+		it := newInterp(r, false)
+		paths := it.Run(norm)
+		prob := ""
+		for _, p := range paths {
+			if len(p.Problems) > 0 {
+				prob = p.Problems[0]
+			}
+		}
+		if len(paths) == 0 || prob != "" {
+			rep.Undecided("C09.X4", fn(norm)+" default expiration normalisation", r.P.Pos(norm.Pos()), "cannot evaluate the normaliser: "+prob)
+			continue
+		}
+		bad := ""
+		judged := 0
+		total := regionEnvs(paths, func(env map[string]int64) bool {
+			var din int64
+			have := false
+			for k, v := range env {
+				if strings.HasPrefix(k, "field:DefaultExpiration(") {
+					din, have = v, true
+				}
+			}
+			for k, v := range env {
+				if strings.HasPrefix(k, "len(") && v < 1 {
+					have = false // no configuration passed: the defaults are returned, nothing is normalised
+				}
+			}
+			if !have {
+				return true
+			}
+			res, e := resultUnder(paths, env)
+			if e != "" || len(res) != 1 {
+				return true
+			}
+			out := res[0]
+			var dterm *sym.Term
+			if out.Op == "struct" {
+				for i, nme := range out.Names {
+					if nme == "DefaultExpiration" {
+						dterm = out.Args[i]
+					}
+				}
+			} else {
+				dterm = sym.Mk("field", "DefaultExpiration", out)
+			}
+			if dterm == nil {
+				return true
+			}
+			dout, ok := evalInt(dterm, env)
+			if !ok {
+				return true
+			}
+			judged++
+			switch {
+			case din >= 1 && dout != din:
+				bad = fmt.Sprintf("a configured default expiration of %dns comes out as %dns", din, dout)
+			case din < 1 && dout > 0:
+				bad = fmt.Sprintf("a configured default expiration of %dns (below 1ns: never expires) comes out as %dns", din, dout)
+			}
+			return bad == ""
+		})
+		n += judged
+		if judged == 0 && bad == "" {
+			// the normaliser never compares the field: it passes through unchanged (any value <= 0 already means 'never expires')
+			n++
+			rep.Pass("C09.X4", fn(norm)+" default expiration normalisation", r.P.Pos(norm.Pos()), "the default expiration is not compared with anything: it reaches the setting as configured")
+			continue
+		}
+		rep.Check(bad == "" && judged > 0, "C09.X4", fn(norm)+" default expiration normalisation", r.P.Pos(norm.Pos()), fmt.Sprintf("a default >= 1ns is kept, anything below means 'never expires' (%d of %d region representatives carry the field)", judged, total),
+			"the configuration normaliser changes the default expiration: "+bad+": entries stored with DefaultExpiration expire at the wrong time or not at all")
+	}
+	rep.MinCount("C09.X4", "normaliser region representatives judged", n, 2)
 }
